@@ -45,6 +45,9 @@ def setup():
     t0 = time.time()
     ok, msg = regen_consts()
     if not ok: print(msg); return 1
+    import globals_scan
+    ok, msg, _ = globals_scan.generate()          # coq/Globals.v is an input of GlobalsModel.v (C14)
+    if not ok: print(msg); return 1
     coq_makefile()
     ok, log = coq_build([], timeout=3400)
     if not ok:
